@@ -13,6 +13,8 @@
  *   A:<name>:<8hex>,...       dnsip4 answer           Q:<name>:<32hex>,...  dnsip6 answer
  *   M:<name>:<prio>.<name>,.. dnsmx answer            P:<ip 32hex>:<name>   dnsname answer
  *   TE/AE/QE/ME/PE:<key>:<ERRNO>   the call fails with that errno
+ *   R:-:1                     TXT answers are NOT sanitised (a resolver library that hands bytes on as they are;
+ *                             only NUL becomes '?'): what spf.c has to cope with on its own
  *   names are hex, '-' is the empty name.  A key without entry: success with an empty answer.
  * Requests:
  *   spf <domain> SESS ZONE...              -> <ret> <spfexp|N> <mechanism|N> <queries>   (spfr: the same)
@@ -62,6 +64,7 @@ static time_t h_time(time_t *t) { if (t) *t = h_now; return h_now; }
 /* ------------------------------------------------------------------ zone table */
 struct zent { char kind; int err; int eno; unsigned char *key; size_t keylen; char *payload; };
 static struct zent zone[512]; static int nzone;
+static int raw_txt;	/* zone entry R:-:1: TXT bytes are handed on unsanitised (NUL -> '?') */
 static char trace[1 << 16]; static size_t tracelen;
 
 static int eno_of(const char *s)
@@ -74,7 +77,7 @@ static int eno_of(const char *s)
 	return EPROTO;
 }
 
-static void zone_clear(void) { for (int i = 0; i < nzone; i++) free(zone[i].key); nzone = 0; tracelen = 0; trace[0] = 0; }
+static void zone_clear(void) { for (int i = 0; i < nzone; i++) free(zone[i].key); nzone = 0; tracelen = 0; trace[0] = 0; raw_txt = 0; }
 
 static int zone_add(char *tok)
 {
@@ -87,6 +90,7 @@ static int zone_add(char *tok)
 	z->key = unhex(c1 + 1, &z->keylen, 1);
 	z->payload = c2 + 1;
 	z->eno = z->err ? eno_of(z->payload) : 0;
+	if (z->kind == 'R') raw_txt = 1;
 	nzone++;
 	return 0;
 }
@@ -134,7 +138,12 @@ int dnstxt_records(char **out, const char *host)
 	for (int i = 0; i < n; i++) { char *it = item(z->payload, i); recs[i] = unhex(it, &ls[i], 0); free(it); total += ls[i] + 1; }
 	char *b = malloc(total); size_t o = 0;
 	for (int i = 0; i < n; i++) {
-		for (size_t j = 0; j < ls[i]; j++) { char ch = (char)recs[i][j]; if (ch < 32) ch = '?'; if (ch > 126) ch = '?'; b[o++] = ch; }
+		for (size_t j = 0; j < ls[i]; j++) {
+			char ch = (char)recs[i][j];
+			if (raw_txt) { if (ch == 0) ch = '?'; }
+			else { if (ch < 32) ch = '?'; if (ch > 126) ch = '?'; }
+			b[o++] = ch;
+		}
 		b[o++] = 0; free(recs[i]);
 	}
 	free(recs); free(ls);
